@@ -47,6 +47,7 @@ def dispatch (op : String) (f : List Text) : String :=
     | "go" => s!"{specGoSat spec v} T"
     | "gha" => s!"{specGhaSat spec v} T"
     | _ => "UNKNOWN-ECO"
+  | "c02.ast", [spec] => s!"{C02Ast.sameReading spec} {specNpmFrag spec}"
   | "spec.npm.sat", [spec, v] => specNpmSat spec v
   | "spec.npm.frag", [spec] => specNpmFrag spec
   | "spec.crates.sat", [spec, v] => specCratesSat spec v
